@@ -227,8 +227,9 @@ PROPS = {
         "technique": "Coq theorems over regenerated facts (every inherited declaration digest-identical to go-ethereum v1.12.0, instruction tables equal outside 0xe0-0xe7 on all forks and extra-EIP sets) + differential execution against the reference implementation",
         "level_text": "On every run a translator re-reads /repo and go-ethereum v1.12.0 and regenerates (a) a structural digest of every top-level declaration of vm and core and (b) the 256-entry instruction "
                       "tables the live interpreters select for Frontier..Shanghai and for each activatable EIP; Coq theorems (vm_compute over this finite data, bound = the listed declarations and 256 x forks) state that every "
-                      "declaration is identical to upstream's or is one of the 183 reviewed Artela modifications/additions with its reviewed digest, that every table entry outside the journal bytes equals upstream's, and that "
-                      "the precompile sets are upstream's plus 0x64-0x66 from Berlin. The frame logic Artela changed (Call/create) is modelled in Coq and proved to project onto upstream's frame logic when nothing is bound (Exec). "
+                      "declaration is identical to upstream's or is one of the 184 reviewed Artela modifications/additions with its reviewed digest, that every table entry outside the journal bytes equals upstream's, and that "
+                      "the precompile sets are upstream's plus 0x64-0x66 from Berlin. The frame logic Artela changed (Call/CallCode/DelegateCall/StaticCall/create + the interpreter loop skeleton) is modelled in Coq (Model/Exec.v) and PROVED (Proofs/Exec_refine.v, additions_invisible) "
+                      "to compute, with nothing bound and for every standard program, entry point, call tree, gas and depth, exactly the results, world state and debug events of the same logic with the Artela additions switched off. "
                       "Behavioural equality is validated, and a failing input searched, by running generated programs (valid grammar-based + malformed) through all six entry points on both implementations.",
         "level_note": COMMON_NOTE + REF_NOTE,
         "rule": "programs for 4 mutually calling contracts from a snippet grammar (arithmetic, memory, storage, logs, jumps, loops, all call kinds to contracts/EOA/empty/precompiles 1-9 with varied gas and value, CREATE/CREATE2, "
@@ -326,9 +327,11 @@ PROPS.update({
                       "Theorems in Coq over the generic frame model: whenever Call, CallCode, DelegateCall, StaticCall end in an error the world state equals the state on entry; a failed create leaves the entry state "
                       "or the entry state with the creator's nonce bumped and the address warm. Proved for every instruction semantics, host, precompile, Aspect oracle, provider and fuel. The model is run against the real "
                       "entry points on generated scenarios with failures injected at join-point firings; an independent oracle compares a digest of the world before every call instruction and after a failed call."),
-    "C05": _exec_prop(run_C05, "Coq theorems (no join point anywhere when switched off; pre-failure result) + frame correspondence comparing every provider query / Aspect enter / firing payload / exit in order + bracket oracle",
-                      "Theorems in Coq: with join points off (or without the Artela additions) no join-point event occurs in any execution (mutual induction over all entry points); a failing pre join point fails the frame. "
-                      "Exactly-once, ordering, LIFO nesting and payload identity are carried by the frame model's definition of do_call and checked against the code event by event: the fake provider and runtime log every query and the decoded "
+    "C05": _exec_prop(run_C05, "Coq theorems (the join points of a CALL: once before the callee with the call's own data, once after it with its result, nothing after a failing pre join point; no join point anywhere when switched off) + frame correspondence comparing every provider query / Aspect enter / firing payload / exit in order + bracket oracle",
+                      "Theorems in Coq: for every CALL that reaches a contract with code (any depth, instruction semantics, Aspect behaviour, provider) the pre join point is evaluated once on the state right after the frame was opened with the payload "
+                      "(caller, callee, index of the node just added, calldata, value, gas supplied); if it fails neither the callee nor the post join point runs; otherwise the callee runs once with the pre join point's leftover and the post join point "
+                      "once with the same call data plus the callee's return data, error text and leftover gas (C05_join_points_once_with_call_data); with join points off no join-point event occurs in any execution; events nest (C18_events_balanced). "
+                      "The model's event stream is compared with the code event by event: the fake provider and runtime log every query and the decoded "
                       "request; an independent oracle checks per call frame: queries are [] / [pre] / [pre, post], payload fields equal the call's, a bound Aspect receives the call also for empty calldata."),
     "C06": _exec_prop(run_C06, "Coq theorems (out-of-gas join point = EVM out of gas with no gas, post failure forfeits, success hands back the leftover, frame gas <= supplied) + frame correspondence on gas values",
                       "Theorems in Coq about the gas the frame logic hands over: a join point failing with the text 'out of gas' yields the EVM's own error and zero gas (pre and post), any other post failure forfeits all gas and rolls back, "
@@ -367,7 +370,7 @@ PROPS.update({
                       "the reference journal performs 1 + ceil(len/32) reads with len taken from a contract-controlled storage word — the bound by a fixed multiple of the flat 800 gas is REFUTED (theorem with witness, known finding F7) and the weaker bound by the encoded length is proved. "
                       "A sweep with a counting StateDB and allocation accounting runs each journal instruction and the context-write precompile with length fields 2^5..2^16 (2^22 thorough).",
         "level_note": COMMON_NOTE + "For the inherited opcodes the statement is inherited from go-ethereum v1.12.0 (C01 identity theorems) and not re-proved. Allocation is measured with runtime.MemStats (TotalAlloc delta).",
-        "rule": "6 instruction/precompile shapes x k = 5..16 (22): a length field of 2^k placed where it could drive reads, copies or allocations; bound checked: reads <= gas/100 + 2, allocated bytes <= 1 MiB + 16 x memory size; "
+        "rule": "6 instruction/precompile shapes x k = 5..16 (22): a length field of 2^k placed where it could drive reads, copies or allocations; plus 4 journal instructions with a pointer operand 2^10..2^24 beyond the frame's memory; bound checked: reads <= gas/100 + 2, allocated bytes <= 128 KiB + 16 x memory size; "
                 "non-trivial = any case; distinct = (shape, k)",
         "modelled": ["vm/instructions.go:926-1140", "vm/contracts.go:1161-1193", "vm/gas_table.go makeGasJournal"],
         "assumptions": [],
